@@ -32,10 +32,11 @@ func writeStreamEstablishHeader(w io.Writer, msg *StreamEstablish) (int, error) 
 func readAtLeast(r io.Reader, n, min int, buf []byte) (int, error) {
 	for n < min {
 		nr, err := r.Read(buf[n:])
-		if err != nil {
+		// a Read may return data together with an error (e.g. io.EOF).
+		n += nr
+		if err != nil && n < min {
 			return n, err
 		}
-		n += nr
 	}
 	return n, nil
 }
